@@ -68,7 +68,7 @@ SeqKinds == {"Map", "FMap", "Filter", "ForEach", "Void", "Fold", "Partition", "T
 Parallel(cfg) == cfg.forked /\ cfg.par > 1 /\ cfg.kind \in {"Map", "FMap", "Filter", "ForEach", "Void", "Fold", "Partition"}
 \* a parallel stage under Lift: every worker stops at its own first failure; which elements the others still process is
 \* not fixed by any property (C09 speaks of Try-mode errors): only the panic / closure / no-leak predicates apply there
-Unspecified(cfg) == Parallel(cfg) /\ cfg.mode = "lift" /\ cfg.fail # {}
+Unspecified(cfg) == Parallel(cfg) /\ cfg.mode = "lift" /\ cfg.fail # {} /\ cfg.kind \in {"Map", "FMap"}
 Ok(cfg, s) == IF cfg.mode = "try" THEN Good(s, cfg.fail) ELSE IF cfg.mode = "lift" THEN UpToFirstFail(s, cfg.fail) ELSE s
 Errs(cfg, s) == IF cfg.mode = "try" THEN Bad(s, cfg.fail) ELSE IF cfg.mode = "lift" THEN FirstN(Bad(s, cfg.fail), 1) ELSE <<>>
 \* expected content of returned channel o for the input sequence s (uncancelled result)
